@@ -516,7 +516,10 @@ def c15(a):
               "HH:MM:SS x precision, comma, padding, zero unit) plus seeded option mixes: the text must be accepted by the "
               "parser; lossless configurations must return the identical value (after folding the units below the fractional "
               "unit), lossy ones a value closer than one unit of the last printed digit (digits counted in the text).")
-    c.assumptions = TRUSTED + ["no independent reader for the friendly format (relations between original and re-parsed value only)"]
+    c.rule += (" Every friendly text is also read by Friendly.tla, an independent reader written from the grammar in the "
+               "documentation: the text itself must denote the value (calendar units exactly, the time units exactly or as a "
+               "total, truncated toward zero by less than one unit of the last digit under a limited precision).")
+    c.assumptions = TRUSTED
     return c.finish()
 
 
